@@ -293,7 +293,7 @@ PROPS["C10"] = {
         "tokio::sync::Mutex::lock gives mutual exclusion and the guard `_guard` lives to the end of its block (Rust drop order); a second lock() by the holder never returns (modelled as a precondition !held)",
         "rely: other requests follow the same discipline (same code); while this request holds the lock the `metrics` binding does not change, at any other time it may change arbitrarily",
         "DataFusion: ctx.sql_with_options resolves table names at planning time and the returned DataFrame keeps the resolved provider; df.collect() scans exactly that provider",
-        "register_metrics_table_for_chunks_locked binds `metrics` to exactly norm(chunk_paths) on success (unit of c04_registration, discharged in the same run; its precondition book_ok is the lock invariant: it is re-established by every successful registration and assumed to survive failed ones, which fail before the catalog is touched unless DataFusion's register_table fails right after deregister_table)",
+        "register_metrics_table_for_chunks_locked binds `metrics` to exactly norm(chunk_paths) on success, or leaves it unbound (unit of c04_registration, discharged in the same run; its precondition book_ok -- the bookkeeping names what `metrics` is bound to, or `metrics` is unbound -- is the lock invariant: the unit re-establishes it on every exit, QueryEngine::new establishes it)",
         "the closure region units replace `with_metrics_table(&chunk_paths, sql, |p| async { body })` by `let p = df_in; { body }` (declared rewrite); the statement that reaches the closure is the one planned by with_metrics_table (unit with_metrics_table, via its run_operation shim)",
         "chunk files of one tenant agree on the types of the columns a statement mentions (pruning inputs are planned against a table left by an earlier request)",
         "QueryEngine::new registers the empty table before the engine value is shared",
